@@ -46,6 +46,18 @@ let c17_onceseq args =
     String.concat "," res ^ " calls=" ^ String.concat "," calls
   | _ -> failwith "onceseq: bad args"
 
+(* onceany: every Get of a key returns the constructor's single result for it, whatever its type *)
+let c17_onceany args =
+  match args with
+  | [keys] ->
+    let ks = List.map int_of_string (split_on ',' keys) in
+    let show k = match k mod 5 with
+      | 0 -> "int" ^ string_of_int k | 1 -> "str:s" ^ string_of_int k | 2 -> "nil" | 3 -> "func" | _ -> "ptr" ^ string_of_int k in
+    let distinct = List.length (List.sort_uniq compare ks) in
+    String.concat "," (List.map show ks) ^ " calls=" ^ string_of_int distinct ^ "/" ^ string_of_int distinct
+  | _ -> failwith "onceany: bad args"
+
 let () =
+  Registry.register "onceany" c17_onceany;
   Registry.register_judge "semaseq" c17_semaseq;
   Registry.register "onceseq" c17_onceseq
